@@ -46,7 +46,7 @@ func driveCmd(args []string) {
 		fatal(err)
 	}
 	bw := bufio.NewWriterSize(f, 1<<20)
-	r := &drive.Runner{Enc: json.NewEncoder(bw), Teardown: *teardown}
+	r := &drive.Runner{Enc: json.NewEncoder(bw), Teardown: *teardown, AllowIllegal: *profile == "bad"}
 	if *opsFile != "" {
 		in, err := os.Open(*opsFile)
 		if err != nil {
